@@ -655,6 +655,10 @@ def slot_rule(repo, res, inv):
                 for i, (ln, v) in enumerate(vals):
                     if isinstance(v, ast.Subscript) and isinstance(v.value, ast.Call) and isinstance(v.value.func, ast.Name) and v.value.func.id == "_array_comp_helper" and isinstance(v.slice, ast.Constant):
                         vals[i] = (ln, v.value.args[v.slice.value])
+                    # _comp_tolerances(unit, args, kwargs) returns (args, kwargs) with an absolute tolerance that carries units
+                    # re-expressed in the compared unit (C19-R1): result k is argument k + 1
+                    if isinstance(v, ast.Subscript) and isinstance(v.value, ast.Call) and isinstance(v.value.func, ast.Name) and v.value.func.id == "_comp_tolerances" and isinstance(v.slice, ast.Constant) and len(v.value.args) == 3:
+                        vals[i] = (ln, v.value.args[v.slice.value + 1])
             for c in walk_no_nested(fn.node):
                 if not isinstance(c, ast.Call):
                     continue
